@@ -154,8 +154,8 @@ def mean_violations(text, rec):
 
 def same_groups_violations(text, rec):
     """Alternate-location inputs (one MODEL): a residue that has the same name and the same heavy atoms in two
-    conformations carries the same kinds of groups in both (a group kind is a function of the residue's atoms and of
-    its place in the chain, which alternate locations do not change)."""
+    conformations carries the same ionizable groups (side chain, amino and carboxyl terminus) in both: these are a
+    function of the residue's atoms and of its place in the chain, which alternate locations do not change."""
     if "MODEL" in text or len(rec["conf_names"]) < 2:
         return []
     per = {}
@@ -166,6 +166,8 @@ def same_groups_violations(text, rec):
                 res[(a["chain"], a["resnum"], a["icode"], a["resname"])].add(a["name"])
         kinds = collections.defaultdict(list)
         for g in rec["confs"][c]["groups"]:
+            if g["type"] in ("BBN", "BBC"):
+                continue          # plain backbone groups also depend on the atoms of the neighbouring residues
             kinds[(g["chain"], g["resnum"], g["icode"], g["resname"])].append(g["type"])
         per[c] = (res, kinds)
     first = rec["conf_names"][0]
@@ -178,7 +180,7 @@ def same_groups_violations(text, rec):
                 # chain), listed as whole-residue alternates: only the first alternate gets the amino terminus
                 only_a = [k for k in ka if k not in kb]
                 only_b = [k for k in kb if k not in ka]
-                f23 = "OXT" in names and sorted(only_a + only_b) == ["BBN", "N+"]
+                f23 = "OXT" in names and sorted(only_a + only_b) == ["N+"]
                 v.append({"clause": "same-residue-same-groups", "pos": (rid[0].strip() or "_", rid[1]),
                           "sig": "one-residue-chain-alternates" if f23 else None,
                           "detail": "residue %r has the same heavy atoms in %s and %s but groups %r vs %r" % (
